@@ -33,6 +33,7 @@ import tempfile
 import time
 import typing
 
+import forml
 from forml import application
 from forml import project as prjmod
 from forml.io import asset
@@ -457,12 +458,18 @@ def gen_ab_cfg(seed: int) -> dict:
     else:
         targets = [rng.choice([None, 1, 3, 0.25, 0.5, 2.5]) for _ in range(nvar)]
     n = rng.choice([10, 50, 200, 1000, 2000])
+    extra = random.Random(seed ^ 0xAB5)
+    if extra.random() < 0.03:
+        n = 70000 if os.environ.get('VERIF_TIER', 'quick') == 'quick' else extra.choice([70000, 140000, 300000])  # long-lived selectors: counters far beyond anything a test would reach
     cfg = {'seed': seed, 'mode': 'abtest', 'variants': [{'release': r, 'generation': g, 'target': t}
                                                         for (r, g), t in zip(chosen, targets)],
            'n': n, 'explicit': {'release': chosen[0][0], 'generation': chosen[0][1]}}
     # the selector is part of an application descriptor, which gets pickled whenever it crosses a process boundary:
     # after these requests the history continues on a pickled copy
     cfg['ships'] = sorted(rng.sample(range(1, n), rng.randint(1, 3))) if rng.random() < 0.35 else []
+    # cold start: the selectors are asked for the first time while the serving registry is still empty (the project
+    # is published and trained right afterwards) - what they return from then on must come from THIS registry
+    cfg['cold'] = extra.random() < 0.2
     return cfg
 
 
@@ -518,6 +525,26 @@ def run_abtest(cfg: dict) -> dict:
         out['violations'].append({'class': 'abtest-construction-failed', 'detail': f'targets {targets}: '
                                                                                    f'{type(err).__name__}: {err}'})
         return out
+    exp = application.Explicit('pa', cfg['explicit']['release'], cfg['explicit']['generation'])
+    cold = None
+    if cfg.get('cold'):
+        cold = pathlib.Path(tempfile.mkdtemp(prefix='c17-cold-', dir=serving.scratch_parent()))
+        os.environ['FORML_HOME'] = str(cold / 'home')  # (whatever "the platform default registry" is, it is not ours)
+        (cold / 'reg').mkdir()
+        directory = asset.Directory(posix.Registry(cold / 'reg', staging=cold / 'stage'))
+        early: list = []
+        for sel in (selector, exp):
+            try:
+                picked = sel.select(directory, None, None)
+            except Exception:  # pylint: disable=broad-except
+                picked = None  # nothing to select yet
+            early.append(picked)
+            try:
+                picked.tag  # pylint: disable=pointless-statement
+            except Exception:  # pylint: disable=broad-except
+                pass  # (a lazy reference to something that does not exist yet)
+        shutil.copytree(root / 'reg', cold / 'reg', dirs_exist_ok=True)
+        out['cold'] = True
     shares = reference_shares(targets)
     ids = [[v['release'], v['generation']] for v in variants]
     counts = [0] * len(variants)
@@ -527,12 +554,26 @@ def run_abtest(cfg: dict) -> dict:
         if n - 1 in cfg.get('ships', ()):
             selector = pickle.loads(pickle.dumps(selector))
         try:
-            instance = selector.select(directory, None, None)
+            if n == 1 and cold is not None and early[0] is not None:
+                instance = early[0]  # request 1 was the one made while the registry was empty (it counts)
+            else:
+                instance = selector.select(directory, None, None)
         except Exception as err:  # pylint: disable=broad-except
             out['violations'].append({'class': 'selection-failed', 'detail': f'ABTest targets {targets}: request {n} '
                                                                              f'raised {type(err).__name__}: {err}'})
             return out
         gen = instance._generation  # pylint: disable=protected-access
+        if n == 1 or n == cfg['n']:
+            try:  # the instance is a lazy reference: it must resolve - within the registry it was selected from
+                instance.tag  # pylint: disable=pointless-statement
+                if cold is not None and gen.registry is not directory.registry and gen.registry != directory.registry:
+                    raise forml.MissingError(f'bound to {gen.registry!r} instead of {directory.registry!r}')
+            except Exception as err:  # pylint: disable=broad-except
+                out['violations'].append({'class': 'selection-failed',
+                                          'detail': f'ABTest targets {targets}: the instance selected by request {n} '
+                                                    f'does not resolve: {type(err).__name__}: {err}'
+                                                    + (' [first asked while the registry was empty]' if cold else '')})
+                return out
         got = [str(gen.release.key), int(gen.key)]
         if got not in ids or str(gen.project.key) != 'pa':
             out['violations'].append({'class': 'wrong-selection', 'detail': f'ABTest returned {got}, not a variant'})
@@ -555,15 +596,24 @@ def run_abtest(cfg: dict) -> dict:
             vio['known_id'] = KNOWN_AB  # exactly the documented-defective first-eligible sequence
         out['violations'].append(vio)
     # Explicit: one and the same configured instance for every request
-    exp = application.Explicit('pa', cfg['explicit']['release'], cfg['explicit']['generation'])
     seen = set()
     for _ in range(min(cfg['n'], 50)):
-        gen = exp.select(directory, None, None)._generation  # pylint: disable=protected-access
+        picked = exp.select(directory, None, None)
+        gen = picked._generation  # pylint: disable=protected-access
+        try:
+            picked.tag  # pylint: disable=pointless-statement
+        except Exception as err:  # pylint: disable=broad-except
+            out['violations'].append({'class': 'selection-failed',
+                                      'detail': f'the instance returned by Explicit does not resolve: {type(err).__name__}: '
+                                                f'{err}' + (' [first asked while the registry was empty]' if cold else '')})
+            break
         seen.add((str(gen.project.key), str(gen.release.key), int(gen.key)))
     if seen != {('pa', cfg['explicit']['release'], cfg['explicit']['generation'])}:
         out['violations'].append({'class': 'explicit-mismatch', 'detail': f'Explicit returned {sorted(seen)}'})
     out['digest'] = base.digest([seq[:200], counts])
     out['counts'] = counts
+    if cold is not None:
+        shutil.rmtree(cold, ignore_errors=True)
     return out
 
 
@@ -807,6 +857,7 @@ def main(argv: list[str]) -> int:
             return base.EXIT_VIOLATION
         return base.EXIT_OK
     tier = base.tier(args.tier)
+    os.environ['VERIF_TIER'] = tier  # (the history generator draws longer A/B histories in the thorough tier)
     seed0 = base.base_seed()
     nseeds = args.seeds or (1500 if tier == 'quick' else 120000)
     budget = args.budget or (40 if tier == 'quick' else 1500)
